@@ -305,8 +305,11 @@ func rulesC03(w *World, o *Out) {
 	o.Rule("C03.R5", "a handler that mutates state has a principal: it reads Metadata.Creator, or is authority-guarded, or is listed")
 	o.Rule("C03.R6", "wasm bindings set the creator / sender of the messages they build from the calling contract's address only")
 
+	o.Rule("C03.R7", "the creator check lives in the ante chain, which only sees a transaction's top-level messages: every component wired in app.New with the application's message router (a component that can hand further messages to the module handlers) is classified, and one that executes caller-chosen nested messages must have them unwrapped and checked by the decorator")
+
 	msgs := w.EntriesOf("msg")
 	o.Count("C03 Msg handlers", len(msgs), 41)
+	rulesC03Nested(w, o)
 
 	// ---- R1 ----
 	for _, e := range msgs {
@@ -732,6 +735,7 @@ func rulesC03Ante(w *World, o *Out, fl *Flow, ah *ssa.Function) {
 	}
 	// (b) lookup structures rebuilt per message
 	nMk := 0
+	mkOrd := map[string]int{}
 	for _, b := range ah.Blocks {
 		for _, in := range b.Instrs {
 			switch x := in.(type) {
@@ -755,13 +759,21 @@ func rulesC03Ante(w *World, o *Out, fl *Flow, ah *ssa.Function) {
 					continue
 				}
 				nMk++
-				o.Check("C03.R2", "AnteHandle|per-message lookup "+x.(ssa.Value).Name()+" ("+x.(ssa.Value).Type().String()+") is rebuilt for every message", body[b], w.Pos(in.Pos()),
+				// keyed by type and ordinal in source order, never by SSA register name
+				tname := x.(ssa.Value).Type().String()
+				mkOrd[tname]++
+				ord := ""
+				if mkOrd[tname] > 1 {
+					ord = "#" + itoa(mkOrd[tname])
+				}
+				o.Check("C03.R2", "AnteHandle|per-message lookup ("+tname+")"+ord+" is rebuilt for every message", body[b], w.Pos(in.Pos()),
 					"a map/slice filled from one message's grants is allocated outside the per-message loop: grantees of an earlier message's creator stay valid for later messages with a different creator")
 			}
 		}
 	}
 	o.Count("C03.R2 per-message lookup structures", nMk, 1)
 	// (c) loop advances only past an acceptance
+	advOrd := 0
 	for _, p := range hdr.Preds {
 		if !body[p] || !hdr.Dominates(p) {
 			continue
@@ -800,7 +812,8 @@ func rulesC03Ante(w *World, o *Out, fl *Flow, ah *ssa.Function) {
 				}
 			}
 		}
-		o.Check("C03.R2", "AnteHandle|next message reached only past an acceptance (block "+itoa(p.Index)+")", okAdv, w.Pos(p.Instrs[len(p.Instrs)-1].Pos()),
+		advOrd++
+		o.Check("C03.R2", "AnteHandle|next message reached only past an acceptance #"+itoa(advOrd), okAdv, w.Pos(p.Instrs[len(p.Instrs)-1].Pos()),
 			"the per-message loop may advance only when the message has no metadata, is signed by its creator, or has a signer among the creator's grantees; "+how)
 	}
 	// (d) next() reached only after the loop completes
@@ -897,4 +910,92 @@ func granteesFromLookup(fl *Flow, v ssa.Value) bool {
 		}
 	}
 	return true
+}
+
+// c03RouterUsers: what each external component constructed with app.MsgServiceRouter() does with it.
+// "dispatch:<container type>" = executes caller-chosen nested messages through the router.
+var c03RouterUsers = map[string]string{
+	"github.com/cosmos/cosmos-sdk/x/gov/keeper.NewKeeper":                                         "governance: executes the messages of a passed proposal, which the property admits as the governance authority (and gov requires the message signer to be the gov account)",
+	"github.com/cosmos/cosmos-sdk/types/module.NewConfigurator":                                   "registers the Msg services on the router; dispatches nothing",
+	"github.com/CosmWasm/wasmd/x/wasm.NewAppModule":                                               "module registration (simulation wiring); dispatches nothing",
+	"github.com/cosmos/ibc-go/v8/modules/apps/27-interchain-accounts/controller/keeper.NewKeeper": "controller side: routes only its own MsgChannelOpenInit",
+	"github.com/cosmos/cosmos-sdk/x/authz/keeper.NewKeeper":                                       "dispatch:github.com/cosmos/cosmos-sdk/x/authz.MsgExec",
+	"github.com/cosmos/ibc-go/v8/modules/apps/27-interchain-accounts/host/keeper.NewKeeper":       "dispatch:",
+	"github.com/CosmWasm/wasmd/x/wasm/keeper.NewKeeper":                                           "dispatch:",
+}
+
+func rulesC03Nested(w *World, o *Out) {
+	newApp := w.MustFunc(o, "app", "", "New")
+	if newApp == nil {
+		return
+	}
+	o.Analysed(w.FuncKey(newApp))
+	// the decorator's reach: which container types does it open?
+	opened := map[string]bool{}
+	if ah := w.Func("x/paloma", "VerifyAuthorisedSignatureDecorator", "AnteHandle"); ah != nil {
+		rs := w.Reach([]*ssa.Function{ah}, nil)
+		for f := range rs {
+			getMsgs := false
+			var asserted []string
+			for _, b := range f.Blocks {
+				for _, in := range b.Instrs {
+					switch x := in.(type) {
+					case *ssa.TypeAssert:
+						t := x.AssertedType
+						if p, ok := t.(*types.Pointer); ok {
+							t = p.Elem()
+						}
+						if n := namedOf(t); n != nil && n.Obj().Pkg() != nil {
+							asserted = append(asserted, n.Obj().Pkg().Path()+"."+n.Obj().Name())
+						}
+					case ssa.CallInstruction:
+						if c, ok := CalleeOf(x.Common()); ok && c.Name == "GetMessages" {
+							getMsgs = true
+						}
+					}
+				}
+			}
+			if getMsgs {
+				for _, a := range asserted {
+					opened[a] = true
+				}
+			}
+		}
+	}
+	n := 0
+	for _, s := range CallsDeep(newApp) {
+		uses := false
+		for _, a := range s.Args() {
+			if c, ok := canon(a).(*ssa.Call); ok {
+				if cal, okc := CalleeOf(c.Common()); okc && cal.Name == "MsgServiceRouter" {
+					uses = true
+				}
+			}
+		}
+		if !uses || strings.HasPrefix(s.Callee.Pkg, modPath) {
+			continue
+		}
+		n++
+		name := s.Callee.Pkg + "." + s.Callee.Name
+		key := "app.New|" + name + "|messages it hands to the handlers carry a verified creator"
+		pos := w.Pos(s.Instr.Pos())
+		class, known := c03RouterUsers[name]
+		switch {
+		case !known:
+			o.Fail("C03.R7", key, pos, "a component not classified in the checker receives the application's message router; if it can execute caller-chosen messages, their metadata.creator is never checked (the creator check exists only in the ante chain, over top-level messages)")
+		case !strings.HasPrefix(class, "dispatch:"):
+			o.Pass("C03.R7", key, pos, class)
+		default:
+			cont := strings.TrimPrefix(class, "dispatch:")
+			ok := cont != "" && opened[cont]
+			why := "executes nested messages chosen by the sender; the message's own signer field (metadata.signers) only has to name the sender, while metadata.creator -- the identity every handler acts for -- is free: any account can act as any creator. "
+			if cont != "" {
+				why += "The decorator must open " + cont + " (type switch + GetMessages) and apply the per-message check to the nested messages."
+			} else {
+				why += "The nested messages arise during execution (IBC packet / contract reply), outside the ante chain; no check at handler or router level exists."
+			}
+			o.Check("C03.R7", key, ok, pos, why)
+		}
+	}
+	o.Count("C03.R7 external components wired with the message router", n, 5)
 }
